@@ -367,6 +367,11 @@ func (t *taintEngine) propagate() {
 							t.mark(val, why)
 						}
 					}
+					// (positions computed from a script-controlled string by
+					// strings.Index* / utf8.Decode* are deliberately not
+					// followed: the eight `i := strings.Index(s, sep); s[:i],
+					// s[i+len(sep):]` idioms of the repository would need a
+					// match-length fact the engine does not have)
 				}
 				// vals.Iterate*(container, func(elem ...) bool): elements of a
 				// script-controlled container are script-controlled
